@@ -9,11 +9,9 @@ package main
 import (
 	"fmt"
 	"math"
-	"regexp"
 	"strconv"
 	"strings"
 
-	"verifharness/vh"
 )
 
 type sx struct {
@@ -221,29 +219,6 @@ func sxStrings(n *sx, strs, regexes *[]string) {
 	for _, k := range n.kids {
 		sxStrings(k, strs, regexes)
 	}
-}
-
-var nlSpaces = regexp.MustCompile("\n *")
-
-// sxRegexNewlines is the class map of finding G20-2: in every regex literal value, a newline (which the lexer lets
-// through after a backslash) together with the spaces that follow it becomes a bare newline. Two trees that are equal
-// under this map but not without it differ only by the indentation the printer inserted inside a regex literal.
-func sxRegexNewlines(n *sx) *sx {
-	if n.kind != 'S' && n.kind != 'L' {
-		return n
-	}
-	out := &sx{kind: n.kind, name: n.name, kids: make([]*sx, len(n.kids))}
-	for i, k := range n.kids {
-		out.kids[i] = sxRegexNewlines(k)
-	}
-	isRegex := n.kind == 'S' && (n.name == "RegExpr" && len(n.kids) == 1 || n.name == "StrExpr" && len(n.kids) == 2 && n.kids[1].name == "true")
-	if isRegex && strings.HasPrefix(n.kids[0].name, "s:") {
-		v := string(vh.Unhx(strings.TrimPrefix(n.kids[0].name, "s:")))
-		if strings.Contains(v, "\n") {
-			out.kids[0] = &sx{kind: 'A', name: "s:" + vh.HxS(nlSpaces.ReplaceAllString(v, "\n"))}
-		}
-	}
-	return out
 }
 
 // firstDiff gives a short window around the first difference of two texts.
